@@ -47,8 +47,29 @@ fn filter_cases(ctx: &Ctx) -> u64 {
     crate::props::c02::BCJ_IDS.len() as u64 * ctx.scaled(reps)
 }
 
+/// Writers whose match-finder window slides (no unit size that would restart the encoder first).
+pub fn slide_components() -> Vec<Container> {
+    vec![
+        Container::LzmaHeaderSized,
+        Container::LzmaHeaderMarker,
+        Container::LzmaRawMarker,
+        Container::Lzma2 { chunk: None },
+        Container::Xz { check: 4, block: None, filters: vec![] },
+        Container::Xz { check: 1, block: None, filters: vec![(3, 4)] },
+        Container::Lzip { member: None },
+    ]
+}
+
+/// Window-slide cases: inputs longer than the encoder's window buffer, with the write boundaries,
+/// tiny writes and flushes placed around the position at which the window moves (found by a probing
+/// encode that watches the `window_move` hook counter).
+fn slide_cases(ctx: &Ctx) -> u64 {
+    let reps = if ctx.thorough() { 40 } else { 3 };
+    slide_components().len() as u64 * ctx.scaled(reps)
+}
+
 pub fn n_cases(ctx: &Ctx) -> u64 {
-    base_cases(ctx) + filter_cases(ctx)
+    base_cases(ctx) + filter_cases(ctx) + slide_cases(ctx)
 }
 
 /// Bytes drawn from a tiny alphabet of opcode bytes and operand-top bytes of the architecture.
@@ -125,8 +146,160 @@ fn nonempty_writes(partition: &[usize], len: usize) -> usize {
     n + (left > 0) as usize
 }
 
+fn window_moves() -> u64 {
+    lzma_rust2::verif::counters()[lzma_rust2::verif::Kind::WindowMove as usize]
+}
+
+/// Probing encode + call histories around the window move(s). Returns the input (cut 60 KB behind
+/// the last move used), the offsets of the 512-byte probe writes during which the window moved, and
+/// the histories (description, write partition, flush_every).
+#[allow(clippy::type_complexity)]
+pub fn slide_setup(spec: &Spec, cname: &str, cell: &str, r: &mut Rng) -> Result<(Vec<u8>, usize, Option<usize>, Vec<(String, Vec<usize>, usize)>), CaseOut> {
+    use std::io::Write;
+    let o = &spec.o;
+    // probing encode: 512-byte writes until the window has moved twice
+    let probe_len = 1_100_000usize;
+    let fam = *r.pick(&[Family::Text, Family::Text, Family::EditRepeat, Family::Sandwich]);
+    let data = gen::gen_data(r, fam, probe_len);
+    let mut moves_at: Vec<usize> = Vec::new();
+    {
+        let d = &data;
+        let m = &mut moves_at;
+        let probe = catch(|| {
+            crate::ours::encode_with(spec, std::io::sink(), d.len() as u64, &mut |w: &mut dyn Write| {
+                let mut off = 0;
+                let mut seen = window_moves();
+                while off < d.len() {
+                    let n = 512.min(d.len() - off);
+                    w.write_all(&d[off..off + n])?;
+                    let now = window_moves();
+                    if now != seen {
+                        seen = now;
+                        m.push(off);
+                    }
+                    off += n;
+                }
+                Ok(())
+            })
+        });
+        match probe {
+            Ok(Ok(_)) => {}
+            Ok(Err(e)) => return Err(CaseOut::skip(cell, format!("probing encode failed: {e}"), "")),
+            Err(p) => return Err(CaseOut::viol(cell, format!("enc-panic {cname} @{}", p.site()), p.short_msg(), format!("probing encode, 512-byte writes, {}", gen::opts_desc(o)))),
+        }
+    }
+    if moves_at.is_empty() {
+        return Err(CaseOut::skip(cell, "the window did not move within 1.1 MB", gen::opts_desc(o)));
+    }
+    stat_add("window_slide_positions_found", moves_at.len() as u64);
+    // the write call during which the window moved started at `edge`; keep 60 KB behind the last edge used
+    let edge = moves_at[0];
+    let edge2 = moves_at.get(1).copied();
+    let len = (edge2.unwrap_or(edge) + 60_000).min(data.len());
+    let mut data = data;
+    data.truncate(len);
+    let mut plans: Vec<(String, Vec<usize>, usize)> = Vec::new();
+    // (a) tiny uniform writes through the region in front of and behind the edge
+    for (piece, flush) in [(1usize, 0usize), (2, 0), (3, 0), (7, 0), (1, 1), (3, 2), (64, 0), (64, 1), (200, 3)] {
+        let lead = edge.saturating_sub(6000 + r.usize_below(3000));
+        let mut p = vec![lead];
+        let span = 7000 + 6000 + 1500;
+        p.extend(std::iter::repeat(piece).take(span / piece));
+        plans.push((format!("lead {lead} then {piece}-byte writes over {span} bytes, flush_every={flush}"), p, flush));
+    }
+    // (b) one boundary (with a flush) at chosen distances in front of the edge, then the rest
+    for i in 0..10 {
+        let back = match r.below(4) {
+            0 => r.usize_below(600),
+            1 => r.usize_below(5000),
+            2 => 512 + r.usize_below(64),
+            _ => r.usize_below(9000),
+        };
+        let at = (edge + 512).saturating_sub(back);
+        let flush = (i % 2 == 0) as usize;
+        plans.push((format!("write({at}){} write(rest)", if flush == 1 { ", flush," } else { "," }), vec![at], flush));
+    }
+    // (c) the same around the second move of the window
+    if let Some(e2) = edge2 {
+        for i in 0..6 {
+            let at = (e2 + 512).saturating_sub(r.usize_below(5200));
+            let first = r.usize_below(at.max(1));
+            let flush = if i % 2 == 0 { 2 } else { 0 };
+            plans.push((format!("write({first}), write({}), {}3-byte writes", at - first, if flush > 0 { "flush, " } else { "" }), {
+                let mut p = vec![first, at - first];
+                p.extend(std::iter::repeat(3).take(700));
+                p
+            }, flush));
+        }
+    }
+    Ok((data, edge, edge2, plans))
+}
+
+pub fn slide_opts(r: &mut Rng) -> LZMAOptions {
+    let mode = if r.chance(1, 2) { EncodeMode::Fast } else { EncodeMode::Normal };
+    let mf = if r.chance(1, 2) { MFType::HC4 } else { MFType::BT4 };
+    let dict = *r.pick(&[4096u32, 4096, 8192, 20000]);
+    let nice = *r.pick(&[8u32, 16, 32, 64, 273]);
+    LZMAOptions::new(dict, 3, 0, 2, mode, nice, mf, 0)
+}
+
+fn slide_case(_ctx: &Ctx, k: u64, r: &mut Rng) -> Vec<CaseOut> {
+    let comps = slide_components();
+    let c = comps[k as usize % comps.len()].clone();
+    let o = slide_opts(r);
+    let spec = Spec { c: c.clone(), o: o.clone() };
+    let cname = format!("{}[window-slide]", Comp::Framed(c.clone()).name());
+    let cell = format!("{cname}|writer|window-slide");
+    let (data, edge, edge2, plans) = match slide_setup(&spec, &cname, &cell, r) {
+        Ok(x) => x,
+        Err(o) => return vec![o],
+    };
+    let data = &data[..];
+    let cap = data.len() + (1 << 20);
+    let mut out = Vec::new();
+    let mut held = 0u64;
+    let nplans = plans.len() as u64;
+    for (what, partition, flush_every) in plans {
+        let desc = format!("{cname} len={} window moved in the write at {edge}{}: {what}; {}", data.len(), edge2.map(|e| format!(" and {e}")).unwrap_or_default(), gen::opts_desc(&o));
+        let bytes = match catch(|| encode(&spec, data, &partition, flush_every)) {
+            Err(p) => {
+                out.push(CaseOut::viol(cell.clone(), format!("enc-panic {cname} @{}", p.site()), p.short_msg(), desc));
+                continue;
+            }
+            Ok(Err(e)) => {
+                out.push(CaseOut::viol(cell.clone(), format!("enc-err {cname} {:?}:{}", e.kind(), e), "", desc));
+                continue;
+            }
+            Ok(Ok(b)) => b,
+        };
+        let d = match catch(|| decode_bytes(&spec, &bytes, data.len() as u64, &[65536], cap)) {
+            Ok(d) => d,
+            Err(p) => {
+                out.push(CaseOut::viol(cell.clone(), format!("dec-panic {cname} @{}", p.site()), p.short_msg(), desc));
+                continue;
+            }
+        };
+        if !d.is_ok() {
+            out.push(CaseOut::viol(cell.clone(), format!("partition-breaks-stream {cname} {}", d.err_string()), format!("after {} bytes", d.out.len()), desc));
+        } else if d.out != data {
+            out.push(CaseOut::viol(cell.clone(), format!("partition-changes-content {cname}"), first_diff(&d.out, data), desc));
+        } else {
+            held += 1;
+        }
+    }
+    stat_add("write_partitions", nplans);
+    stat_add("window_slide_partitions", nplans);
+    if held > 0 {
+        out.push(CaseOut::held(cell, true, format!("{cname} len={}: {held} of {nplans} histories around the window move at {edge} gave the same content", data.len())).times(held));
+    }
+    out
+}
+
 pub fn run_case(ctx: &Ctx, idx: u64) -> Vec<CaseOut> {
     let mut r = Rng::new(mix(ctx.seed, 0xC07_0000 + idx));
+    if idx >= base_cases(ctx) + filter_cases(ctx) {
+        return slide_case(ctx, idx - base_cases(ctx) - filter_cases(ctx), &mut r);
+    }
     if idx >= base_cases(ctx) {
         // reader side of one BCJ filter on an opcode soup (the writer side of the raw filters is
         // covered by the known finding and the base cases)
